@@ -165,11 +165,11 @@ def capture_after_setup(bt, top, hook):
         c.StrategyBase.adjust = orig
 
 
-def whole_run_protocol(ctx, bt, n, corr_name="whole-run", make_spec=None, footprint_fields=None):
+def whole_run_protocol(ctx, bt, n, corr_name="whole-run", make_spec=None, footprint_fields=None, extended=False):
     cfg = E.live_cfg(bt)
     lines, meta = [], []
     for _ in range(n):
-        spec = make_spec(ctx.rng) if make_spec else gen_spec(ctx.rng)
+        spec = make_spec(ctx.rng) if make_spec else (gen_spec_x(ctx.rng) if extended else gen_spec(ctx.rng))
         ctx.count(corr_name + ":programs")
         try:
             b, data, add = R.build_backtest(bt, spec)
@@ -180,7 +180,7 @@ def whole_run_protocol(ctx, bt, n, corr_name="whole-run", make_spec=None, footpr
 
         def hook():
             roots = []
-            cap["line"] = ser_sim(bt, b.strategy, spec["tree"], roots)
+            cap["line"] = ser_simx(bt, b.strategy, spec["tree"], roots, b.dates) if extended else ser_sim(bt, b.strategy, spec["tree"], roots)
             cap["roots"] = roots
         err = None
         try:
@@ -195,7 +195,7 @@ def whole_run_protocol(ctx, bt, n, corr_name="whole-run", make_spec=None, footpr
             ctx.count(corr_name + ":skipped:nan-state")
             continue
         dates = list(range(len(b.dates)))
-        line = "wholerun %s %s %s %s %s" % (E.ser_cfg(cfg), E.tF(float(spec["capital"])), E.tL(dates, str),
+        line = ("wholerunx" if extended else "wholerun") + " %s %s %s %s %s" % (E.ser_cfg(cfg), E.tF(float(spec["capital"])), E.tL(dates, str),
                                             E.tL(stamp_tokens(b.dates), str), cap["line"])
         lines.append(line)
         meta.append((spec, err, [E.snap_world(bt, r) for r in cap["roots"]]))
@@ -206,7 +206,7 @@ def whole_run_protocol(ctx, bt, n, corr_name="whole-run", make_spec=None, footpr
             t = t["kids"][0]
         ctx.count(corr_name + ":depth-%d" % depth)
         ctx.count(corr_name + ":worlds(root+shadow-copies)", len(cap["roots"]))
-        ctx.classes.add(("whole", depth, spec["tree"]["stack"][0][0], spec["tree"]["stack"][1][0], spec["tree"]["stack"][2][0],
+        ctx.classes.add(("whole", depth, spec["tree"]["stack"][0][0], tuple(x[0] for x in spec["tree"]["stack"][1:-1]),
                          spec["integer"], spec["comm"][0], spec["bidoffer"] is not None, bool(b.strategy.bankrupt)))
     outs = leanrun.run_lines(lines) if lines else []
     nd = 0
@@ -219,6 +219,8 @@ def whole_run_protocol(ctx, bt, n, corr_name="whole-run", make_spec=None, footpr
             m = o[4:].strip()
             if err is None:
                 detail = {"kind": "model-raises", "model": m, "real": "ok"}
+            elif extended and m == "BadPath" and err.split(":")[-1] in ("IndexError", "KeyError", "ValueError", "TypeError"):
+                ctx.count(corr_name + ":selection-error-agreed:" + err.split(":")[-1])   # the model maps every error of a selection algo to one kind
             elif err != m and not err.startswith("PaperRun"):
                 detail = {"kind": "error-kind", "real": err, "model": m}
         else:
@@ -249,3 +251,117 @@ def whole_run_protocol(ctx, bt, n, corr_name="whole-run", make_spec=None, footpr
     ctx.count(corr_name + ":floats-bit-identical", nbit)
     ctx.protocols.append((corr_name, len(meta), nd))
     return len(meta), nd
+
+
+# ---------------------------------------------------------------------------------------------------------------
+# extended programs (`wholerunx`): the selection part is a sequence of SelectAll / SelectThese / SelectHasData / SelectMomentum
+def gen_stack_x(rng, names, lev=False):
+    base = gen_stack(rng, names, lev)
+    sched, wgh = base[0], base[2]
+    r = rng.random()
+    if r < 0.25:
+        sels = [["SelectAll"], ["SelectHasData", rng.choice([1, 2, 3, 5, 10]), rng.randint(1, 4)]]
+    elif r < 0.6:
+        sels = [["SelectAll"], ["SelectMomentum", rng.randint(1, max(1, len(names))), rng.choice([1, 2, 3, 7, 20]), rng.choice([0, 0, 1, 2])]]
+    elif r < 0.75:
+        sels = [["SelectHasData", rng.choice([2, 3, 5]), rng.randint(1, 3)], ["SelectMomentum", rng.randint(1, max(1, len(names))), rng.choice([2, 5, 9]), rng.choice([0, 1])]]
+    elif r < 0.85:
+        k = rng.randint(1, len(names))
+        sels = [["SelectThese", rng.sample(names, k)], ["SelectMomentum", 1, rng.choice([2, 4]), 0]]
+    else:
+        sels = [base[1]]
+    if any(s[0] in ("SelectHasData", "SelectMomentum") for s in sels):
+        wgh = ["WeighEqually"]      # what a data filter selected is what gets traded
+    return [sched] + sels + [wgh, ["Rebalance"]]
+
+
+def gen_spec_x(rng, nested=None):
+    spec = gen_spec(rng, nested=nested)
+    if spec["grid"] != "float":
+        # ranked selection: avoid exact ties between total returns (pandas' sort is then an implementation detail)
+        T = len(spec["dates"])
+        for j, t in enumerate(spec["tickers"]):
+            col = spec["prices"][t]
+            spec["prices"][t] = [None if p is None else p * (1.0 + 0.001 * (j + 1)) + 0.0001 * i * (j + 1) for i, p in enumerate(col)]
+
+    def redo(t):
+        names = [k["name"] for k in t["kids"]] + t["tickers"]
+        t["stack"] = gen_stack_x(rng, names)
+        for k in t["kids"]:
+            redo(k)
+    redo(spec["tree"])
+    T = len(spec["dates"])
+    for t in spec["tickers"]:
+        if rng.random() < 0.25:
+            k = rng.randint(1, max(1, T // 2))
+            spec["prices"][t] = [None] * k + [p if p is not None else 10.0 for p in spec["prices"][t][k:]]
+    # a late listing may only meet stacks whose selection filters on data
+    def safe(t):
+        st = t["stack"]
+        return st[-2][0] == "WeighEqually" and all(safe(k) for k in t["kids"])
+    if not safe(spec["tree"]):
+        for t in spec["tickers"]:
+            spec["prices"][t] = [p if p is not None else 10.0 for p in spec["prices"][t]]
+    return spec
+
+
+def ser_progx(bt, node, spec_node, bdates):
+    kids = list(node._childrenv)
+    name_idx = {k.name: i for i, k in enumerate(kids)}
+    st = spec_node["stack"]
+    sched, sels, wgh = st[0], st[1:-2], st[-2]
+    toks = [str(KINDS[sched[0]]), E.tB(sched[1]), E.tB(sched[2]), E.tB(sched[3])]
+    ucols = [name_idx[c] for c in node._universe.columns if c in name_idx]
+    toks.append(E.tL(ucols, str))
+    dates = [pd.Timestamp(d) for d in bdates]
+    n = len(dates)
+    stoks = []
+    for s in sels:
+        if s[0] == "SelectAll":
+            stoks.append("A 0 0")
+        elif s[0] == "SelectThese":
+            stoks.append("T %s 0 0" % E.tL([name_idx[x] for x in s[1]], str))
+        elif s[0] == "SelectHasData":
+            lb = pd.DateOffset(days=s[1])
+            lo = [sum(1 for d in dates[:now + 1] if d < dates[now] - lb) for now in range(n)]
+            stoks.append("H %s %d 0 0" % (E.tL(lo, str), s[2]))
+        elif s[0] == "SelectMomentum":
+            lb, lag = pd.DateOffset(days=s[2]), pd.DateOffset(days=s[3])
+            wins = []
+            for now in range(n):
+                t0 = dates[now] - lag
+                if dates[0] > t0:
+                    wins.append("N")
+                else:
+                    a = t0 - lb
+                    vis = dates[:now + 1]
+                    wins.append("%d %d" % (sum(1 for d in vis if d < a), sum(1 for d in vis if d <= t0)))
+            stoks.append("M %d %s I %d 0 0" % (n, " ".join(wins), s[1]))
+        else:
+            raise ValueError(s[0])
+    toks.append("%d %s" % (len(stoks), " ".join(stoks)))
+    if wgh[0] == "WeighEqually":
+        toks.append("E")
+    else:
+        items = [(name_idx[x], w) for x, w in wgh[1].items()]
+        toks.append("S %d %s" % (len(items), " ".join("%d %s" % (i, E.tF(w)) for i, w in items)))
+    by_name = {k["name"]: k for k in spec_node["kids"]}
+    toks.append(str(len(kids)))
+    for k in kids:
+        if isinstance(k, bt.core.StrategyBase):
+            toks.append("P " + ser_progx(bt, k, by_name[k.name], bdates))
+        else:
+            toks.append("N")
+    return " ".join(toks)
+
+
+def ser_simx(bt, root, spec_node, snaps, bdates):
+    snaps.append(root)
+    w = E.snap_world(bt, root)
+    toks = [E.ser_world(w), ser_progx(bt, root, spec_node, bdates)]
+    subs = sub_strategies(bt, root)
+    toks.append(str(len(subs)))
+    for path, k in subs:
+        toks.append(E.ser_path(path))
+        toks.append(ser_simx(bt, k._paper, spec_at(spec_node, root, k), snaps, bdates))
+    return " ".join(toks)
